@@ -107,6 +107,7 @@ SPECS = {
     "C03": reasm_spec("C03", "judge_c03", "C03"),
     "C10": reasm_spec("C10", "judge_c10", "C10"),
     "C19": reasm_spec("C19", "judge_c19", "C19"),
+    "C08": None, "C16": None, "C17": None,
     "C11": dict(targets=["Properties/C11.vo"], judge_targets=["Check/ChkC11.vo"],
                 imports="Require Import Reassembler ReasmConc ChkC11.\nLocal Open Scope Z_scope.",
                 case_type="ccase", judge="judge_c11", shard=40, explore=lambda spec, res, a: explore_c11(spec, res, a),
@@ -123,3 +124,28 @@ def explore_c11(spec, res, a):
     rc = V.standard_explore(spec, res, a, [("h_conc", ["-seed", str(res.seed), "-n", str(n), "-stress", str(n), "-storm", str(n)])])
     rc |= V.race_run(res, "h_conc", ["-seed", str(res.seed), "-n", "0", "-stress", "300" if a.tier == "quick" else "5000", "-storm", "20" if a.tier == "quick" else "300"])
     return rc
+
+
+def explore_client(spec, res, a):
+    n = 1500 if a.tier == "quick" else 40000
+    return V.standard_explore(spec, res, a, [("h_client", ["-seed", str(res.seed), "-n", str(n), "-storm", "100" if a.tier == "quick" else "2000"])])
+
+
+CLIENT_RULE = ("histories of 1..7 AuditClient calls (GetStatus, GetRules, AddRule, DeleteRule, DeleteRules, every Set* in both wait modes, SetPID, WaitForPendingACKs, Close, Receive) against a simulated kernel behind the exported Netlink field; "
+               "the kernel script answers each request after 0..2 noise blocks (unsolicited sequence-0 records, 1..3 or exactly 9 transient EINTR/EAGAIN failures), with errno from {0,1,2,11,13,17,22,105,4095,-3}; "
+               "a 'hostile' fifth of the cases adds foreign sequence numbers, short ACK payloads, non-ACK types, hard receive errors, 10 transient failures in a row, wrong reply types; 4% of sends fail; status replies of 0..60 bytes; "
+               "the simulated kernel reuses one receive buffer and rule data is read back after the whole history; 100 concurrent-Close storms; FromWireFormat on every buffer length 0..80. "
+               "non-trivial = the script has more than two entries; distinct by case term")
+
+
+def client_spec(pid, judge):
+    return dict(targets=["Properties/%s.vo" % pid], judge_targets=["Check/ChkClient.vo"],
+                imports="Require Import Bytes AuditClient ChkClient.", case_type="kcase", judge=judge, shard=100, explore=explore_client,
+                rule=CLIENT_RULE,
+                assumptions=["the kernel is simulated through the exported Netlink field (never contacted); Go errors are mapped to the model's error classes by errors.As(syscall.Errno) and message prefixes",
+                             "EAGAIN is kept to at most three per case because each costs a real 50 ms sleep in getReply"])
+
+
+SPECS["C08"] = client_spec("C08", "judge_c08")
+SPECS["C16"] = client_spec("C16", "judge_c16")
+SPECS["C17"] = client_spec("C17", "judge_c17")
